@@ -28,12 +28,13 @@ type Op struct {
 	Sec   int64  `json:"sec,omitempty"`
 	Nano  int64  `json:"nano,omitempty"`
 	Sub   string `json:"sub,omitempty"`
-	AckIx int    `json:"ack_ix,omitempty"` // save: save the offset acknowledged by that earlier append op
+	AckIx int    `json:"ack_ix,omitempty"` // save: save the offset acknowledged by that earlier append op; -1: OffsetOldest (rewind to the start)
 }
 
 type Dump struct {
 	Events []DEvent          `json:"events"`
 	Saved  map[string]string `json:"saved"`
+	Resume map[string]int    `json:"resume"` // per subscription: how many events a Read from its loaded offset returns
 	Schema int               `json:"schema_rows"`
 	Second []DEvent          `json:"events_second_open"`
 	Err    string            `json:"err,omitempty"`
@@ -85,6 +86,9 @@ func run(db, script string) int {
 			ack(i, string(off))
 		case "save":
 			off, ok := acks[op.AckIx]
+			if op.AckIx == -1 {
+				off, ok = string(eventbus.OffsetOldest), true // what LoadOffset reports for a subscription that never saved
+			}
 			if !ok {
 				os.Stdout.Write([]byte(fmt.Sprintf("SKIP %d\n", i)))
 				continue
@@ -118,6 +122,8 @@ func run(db, script string) int {
 	return 0
 }
 
+var resume = map[string]int{}
+
 func readAll(db string) ([]DEvent, map[string]string, error) {
 	st, err := sqlite.New(db)
 	if err != nil {
@@ -140,6 +146,11 @@ func readAll(db string) ([]DEvent, map[string]string, error) {
 			return nil, nil, err
 		}
 		saved[id] = string(off)
+		if rest, _, err := st.Read(ctx, off, 0); err == nil {
+			resume[id] = len(rest)
+		} else {
+			resume[id] = -1
+		}
 	}
 	return out, saved, nil
 }
@@ -150,7 +161,10 @@ func dump(db string) int {
 	if err != nil {
 		d.Err = err.Error()
 	}
-	d.Events, d.Saved = evs, saved
+	d.Events, d.Saved, d.Resume = evs, saved, map[string]int{}
+	for k, v := range resume {
+		d.Resume[k] = v
+	}
 	evs2, _, err := readAll(db) // opening an existing database is idempotent
 	if err != nil && d.Err == "" {
 		d.Err = "second open: " + err.Error()
